@@ -71,6 +71,7 @@ package pebbledb
 //@ end
 
 //@ func (*PebbleScanner).AddSignature
+//@   protocol-only C06 C07 C10 C11
 //@   noframe
 //@   include lockproto
 //@   include commitproto
@@ -81,11 +82,13 @@ package pebbledb
 //@   call (*github.com/cockroachdb/pebble.Batch).Commit assert [C06.write] (sigKey(sig.ID) in written) && (topoKey(sig.TopologyHash, sig.ID) in written) && (entrKey(sig.EntropyScore, sig.ID) in written) && (sig.FuzzyHash != "" ==> fuzzyKey(sig.FuzzyHash, sig.ID) in written)
 
 //@ func (*PebbleScanner).AddSignatures
+//@   protocol-only C06 C07 C10 C11
 //@   noframe
 //@   include lockproto
 //@   include commitproto
 
 //@ func (*PebbleScanner).DeleteSignature
+//@   protocol-only C06 C07 C10 C11
 //@   noframe
 //@   include lockproto
 //@   include commitproto
@@ -93,52 +96,61 @@ package pebbledb
 //@   call (*github.com/cockroachdb/pebble.Batch).Commit assert [C06.delete] (sigKey(id) in deleted) && (topoKey(sig.TopologyHash, sig.ID) in deleted) && (entrKey(sig.EntropyScore, sig.ID) in deleted) && (sig.FuzzyHash != "" ==> fuzzyKey(sig.FuzzyHash, sig.ID) in deleted)
 
 //@ func (*PebbleScanner).SetAllMetadata
+//@   protocol-only C06 C07 C10 C11
 //@   noframe
 //@   include lockproto
 //@   include commitproto
 
 //@ func (*PebbleScanner).MarkFalsePositive
+//@   protocol-only C06 C07 C10 C11
 //@   noframe
 //@   include lockproto
 //@   include directproto
 
 //@ func (*PebbleScanner).SetMetadata
+//@   protocol-only C06 C07 C10 C11
 //@   noframe
 //@   include lockproto
 //@   include directproto
 
 //@ func (*PebbleScanner).DeleteMetadata
+//@   protocol-only C06 C07 C10 C11
 //@   noframe
 //@   include lockproto
 //@   include directproto
 
 //@ func (*PebbleScanner).SetThreshold
+//@   protocol-only C06 C07 C10 C11
 //@   noframe
 //@   include lockproto
 
 //@ func (*PebbleScanner).SetEntropyTolerance
+//@   protocol-only C06 C07 C10 C11
 //@   noframe
 //@   include lockproto
 
 //@ func (*PebbleScanner).ScanCandidates
+//@   protocol-only C06 C07 C10 C11
 //@   noframe
 //@   include lockproto
 //@   include snapshotproto
 
 //@ func (*PebbleScanner).ScanTopologyExact
+//@   protocol-only C06 C07 C10 C11
 //@   noframe
 //@   include lockproto
 //@   include snapshotproto
 
 //@ func (*PebbleScanner).ScanTopologyWithSnapshot
 //@   noframe
-//@   protocol-only C10 C11
+//@   protocol-only C06 C07 C10 C11
 //@   deterministic
 //@   include lockproto
 //@   include snapshotproto
 
 // The rebuild commits in chunks: every commit is durable and under the writer lock; nothing bypasses the batch.
 //@ func (*PebbleScanner).RebuildIndexes
+//@   protocol-only C06 C07 C10 C11
 //@   noframe
 //@   include lockproto
 //@   call (*github.com/cockroachdb/pebble.Batch).Commit assert [C07.sync] a1 == pebble.Sync
@@ -149,17 +161,20 @@ package pebbledb
 
 // The per-hit closures of the scans fetch records from the snapshot they were given, never from the live database.
 //@ func (*PebbleScanner).ScanCandidates$1
+//@   protocol-only C06 C07 C10 C11
 //@   noframe
 //@   include snapshotproto
 //@   ensures [C11.snap] true
 
 //@ func (*PebbleScanner).ScanTopologyWithSnapshot$1
+//@   protocol-only C06 C07 C10 C11
 //@   noframe
 //@   include snapshotproto
 //@   ensures [C11.snap] true
 
 // RebuildIndexes commits through this closure: every chunk commit is durable.
 //@ func (*PebbleScanner).RebuildIndexes$1
+//@   protocol-only C06 C07 C10 C11
 //@   noframe
 //@   call (*github.com/cockroachdb/pebble.Batch).Commit assert [C07.sync] a1 == pebble.Sync
 //@   ensures [C07.sync] true
